@@ -307,21 +307,30 @@ Qed.
 Lemma pp_zero_no_return Q : 2 <= Z.abs Q -> forall f, pp_loop_o f (ctor_copy 0) (gcd_v 0 Q) = NoReturn.
 Proof. intros HQ f. unfold ctor_copy. rewrite gcd_v_ok, Z.gcd_0_l. apply pp_loop_o_stuck. exact HQ. Qed.
 
-(* pp as it is in the source: returns for P <> 0, with the value characterised by Pp_exact; does not return for P = 0, |Q| >= 2
+Lemma pp_fixed_nonzero P Q : P <> 0 -> pp_fixed_o P Q = pp_o P Q.
+Proof.
+  intros HP. unfold pp_fixed_o, pp_o, ctor_copy, isZero_I, mpz_cmp_ui. cbv zeta.
+  destruct (Z.eqb_spec (Z.sgn (P - 0)) 0) as [E | _]; [| reflexivity]. destruct P; cbn in E; try discriminate; contradiction.
+Qed.
+(* pp before the repair: returns for P <> 0, with the value characterised by Pp_exact; does not return for P = 0, |Q| >= 2
    (whatever the fuel: the finding C01 `pp ... does not return`); the body repaired by frag/C01.fix-5.diff returns 0 there and is
    the same function elsewhere *)
 Definition Pp_returns : Prop :=
   (forall P Q, P <> 0 -> exists r, pp_o P Q = Ret r /\ r = pp P Q) /\
   (forall Q, 2 <= Z.abs Q -> forall f, pp_loop_o f (ctor_copy 0) (gcd_v 0 Q) = NoReturn) /\
-  (forall Q, pp_fixed_o 0 Q = Ret 0) /\ (forall P Q, P <> 0 -> pp_fixed_o P Q = pp_o P Q).
+  (forall Q, pp_fixed_o 0 Q = Ret 0) /\ (forall P Q, P <> 0 -> pp_fixed_o P Q = pp_o P Q) /\
+  (* the body in the tree returns for EVERY P, Q *)
+  (forall P Q, exists r, pp_fixed_o P Q = Ret r /\ (P <> 0 -> r = pp P Q) /\ (P = 0 -> r = 0)).
 Lemma pp_returns : Pp_returns.
 Proof.
   unfold Pp_returns; repeat apply conj.
   - intros P Q HP. exists (pp P Q). split; [apply pp_o_ret; exact HP | reflexivity].
   - exact pp_zero_no_return.
   - reflexivity.
-  - intros P Q HP. unfold pp_fixed_o, pp_o, ctor_copy, isZero_I, mpz_cmp_ui. cbv zeta.
-    destruct (Z.eqb_spec (Z.sgn (P - 0)) 0) as [E | _]; [| reflexivity]. destruct P; cbn in E; try discriminate; contradiction.
+  - exact pp_fixed_nonzero.
+  - intros P Q. destruct (Z.eq_dec P 0) as [-> | HP].
+    + exists 0. split; [reflexivity |]. split; [intros H; contradiction | reflexivity].
+    + exists (pp P Q). rewrite pp_fixed_nonzero, pp_o_ret by exact HP. split; [reflexivity |]. split; [reflexivity | intros; contradiction].
 Qed.
 (* logp as it is in the source: for 2 <= p and 1 <= a it returns the integer logarithm; for a < p it returns 0; for p in {0, 1} (p <= a)
    and p = -1 (1 <= a) it does not return, whatever the fuel (the finding C01 `logp ... does not return`); the body repaired by
@@ -330,7 +339,9 @@ Definition Logp_returns : Prop :=
   (forall a p, 2 <= p -> 1 <= a -> exists r, logp_o a p = Ret r /\ 0 <= r /\ p ^ r <= a < p ^ (r + 1)) /\
   (forall a p, a < p -> logp_o a p = Ret 0) /\
   (forall a p, ((p = 0 \/ p = 1) /\ p <= a) \/ (p = -1 /\ 1 <= a) -> forall f, logp_up_o f a (ctor_copy p) nil = None) /\
-  (forall a p, p < 2 -> logp_fixed_o a p = Throws) /\ (forall a p, 2 <= p -> logp_fixed_o a p = logp_o a p).
+  (forall a p, p < 2 -> logp_fixed_o a p = Throws) /\ (forall a p, 2 <= p -> logp_fixed_o a p = logp_o a p) /\
+  (* the body in the tree returns or throws for EVERY a, p *)
+  (forall a p, 2 <= p -> exists r, logp_fixed_o a p = Ret r /\ 0 <= r /\ (1 <= a -> p ^ r <= a < p ^ (r + 1)) /\ (a < p -> r = 0)).
 Lemma logp_returns : Logp_returns.
 Proof.
   unfold Logp_returns; repeat apply conj.
@@ -341,4 +352,11 @@ Proof.
     destruct (Z.ltb_spec p 2); [reflexivity | lia].
   - intros a p H. unfold logp_fixed_o. destruct oplt_exact as (_ & Hi & _). rewrite Hi by (unfold in_i32, H32; lia).
     destruct (Z.ltb_spec p 2); [lia | reflexivity].
+  - intros a p Hp. assert (Efix : logp_fixed_o a p = logp_o a p).
+    { unfold logp_fixed_o. destruct oplt_exact as (_ & Hi & _). rewrite Hi by (unfold in_i32, H32; lia). destruct (Z.ltb_spec p 2); [lia | reflexivity]. }
+    rewrite Efix. destruct (Z_lt_le_dec a p) as [Hlt | Hge].
+    + exists 0. unfold logp_o. rewrite opLt_I_ok. destruct (Z.ltb_spec a p); [| lia].
+      split; [reflexivity |]. split; [lia |]. split; [intros Ha; rewrite Z.pow_0_r, Z.pow_1_r; lia | reflexivity].
+    + exists (logp a p). rewrite (logp_o_ret a p Hp) by lia. pose proof (logp_spec a p Hp ltac:(lia)) as Hs. cbv zeta in Hs.
+      split; [reflexivity |]. split; [tauto |]. split; [intros; tauto | intros; lia].
 Qed.
